@@ -23,7 +23,22 @@ are `rfl`) and through it (b) to the hand-written model (`src_bisect_eq_model`, 
 
 Semantics of the subset (the translator's conventions):
   * straight-line code is SSA-renamed (`x`, `x_1`, ...), every assignment is a `let`; every SSA version has its own type (the
-    loop variable `i`, an index, is a `Nat`; after `i = -1` it is an `Int`);
+    loop variable `i`, an index, is a `Nat`; after `i = -1` it is an `Int`); a name the translator makes up -- a later version
+    `x_k`, a guard `v`, a flag `warn<k>`, `c1` / `c2`, a name changed by the alias table or by a `_` suffix (`fuel`, `range`,
+    `rest`, `r`, `p`: binders of the generated text) -- that is spelled like ANY identifier of the Python function is refused (no
+    capture between a Python local and an SSA name);
+  * NO DEAD STORES: every generated binding (`let`, a component of a pattern, a parameter of a loop definition) has to be read
+    behind it; a source statement whose value nothing reads is outside the subset (`rfl` would absorb the `let`, while in Python
+    the stored value may live on -- in a later region, the pinned `return`, the next iteration);
+  * the function is a CHAIN of regions (preamble -> matrix region of the statement-level engine -> the statements behind the
+    matrix -> the body of `if <flag>:`) and pinned statements; a region hands on exactly its declared OUTPUTS (the results of its
+    definition; the matrix region: the matrix): a region -- the matrix region included -- that (re)binds, in any way (assignment,
+    tuple / starred / walrus / loop target, `append`, subscript store, `import`, `def`, …), a name that is not one of its outputs
+    and that anything behind it reads (a parameter of a later region, a global name a later region calls, a name loaded by the
+    matrix region or by a pinned statement: `M`, `N`, `matching`, `return_matching`, `bdist`, `matchdist`, …) is refused;
+  * lists, the row array, the dict `graph`, the arrays are VALUES, so a second name for one (`y = x`) is outside the subset (an
+    in-place update through one name would be an update of the other in Python); `y = x` is read as a copy for ints, floats,
+    Booleans and the oracle's dict only (no statement of the subset updates those in place);
   * every definition returns `Option`: `none` = the source does not produce a value there -- it raises (`l[i]` / `l[-1]` out of
     range, a key missing from a dict, NumPy shapes that do not fit: the guards `match … with | none => none | some v => …` stand
     where the statement stands), or a fuelled loop runs out of fuel.  `none` is never a value: an equality with the model's `some`
@@ -47,7 +62,7 @@ Semantics of the subset (the translator's conventions):
     a set built by a comprehension over a `range` is the increasing list of its members; the oracle's two-way dict (`'i' -> j` and
     `j -> 'i'`) is the list of its pairs `(i, j)` (`Matching`): `len(res)` is `2 * res.length`, `res['{}'.format(i)]` is
     `res.lookup i` (`none` = KeyError), `{}` is `[]`;
-  * `len(l)`, `l.size` are `l.length`;  `l[-1]` is `l.getLast?`, `l[k]` is `l[k]?`;  `l[0:k]` is `l.take k`, `l[k:]` / `l[k::]` is
+  * `len(l)` is `l.length`, and so is `l.size` for a 1-D array of entries (`ds`; a Python list has no `.size`);  `l[-1]` is `l.getLast?`, `l[k]` is `l[k]?`;  `l[0:k]` is `l.take k`, `l[k:]` / `l[k::]` is
     `l.drop k`;  `int(a / b)` for a `Nat` `a` and a positive literal `b` is `a / b` (floor division of naturals: what the float
     quotient truncates to below 2^53), and so is `a // b`;  `bisect_left(range(n), x)` is `SrcLib.Matching.bisectLeftRange n x` (CPython's loop);
   * `while c:` is a recursion on a fuel argument that counts executions of the body: the test is evaluated first, a false test
@@ -62,15 +77,16 @@ Semantics of the subset (the translator's conventions):
   * the vectorised NumPy statements on the `(k, 3)` array `ret` are read row by row: `np.zeros((k, 3))` is `k` rows `(0, 0, 0)`,
     `ret[:, 0:2] = np.array(p)` / `ret[:, 2] = v` are `SrcLib.Matching.setCols01` / `setCol2` (`none` = the shapes differ),
     `ret[<mask>, c] = e` is `ret.map fun r => if <mask at r> then <r with column c := e> else r`, `ret[<mask>, :]` is
-    `ret.filter`; in a mask `ret[:, c]` is the column `c` of the row (`r.1`, `r.2.1`, `r.2.2`); `np.array(x)` is `x`;
-    `[(i, j) for i, j in zip(a, b)]` is `(a.zip b).map fun (i, j) => (i, j)`.
+    `ret.filter`; in a mask `ret[:, c]` is the column `c` of the row (`r.1`, `r.2.1`, `r.2.2`); `np.array(l)` of a list of index pairs is `l` (a fresh
+    `(k, 2)` array with the same rows; accepted only as the WHOLE right side of an assignment, whose text is pinned:
+    `src_<f>_conversions`); `[(i, j) for i, j in zip(a, b)]` is `(a.zip b).map fun (i, j) => (i, j)`.
   * the preamble: an input diagram is the list of its rows `(birth, death)` with `death : Option α` (`none` = a non-finite death;
-    further columns are ignored, as in the model); `np.array(x, dtype=float)` is `x` (the models are dtype-free; the call texts are
-    pinned: `src_<f>_conversions`); `S.shape[0]` is `S.length`; `S.size` is `c * S.length` for the number `c` of columns of the
+    further columns are ignored, as in the model); `S = np.array(x, dtype=float)` is `S := x` (the models are dtype-free; accepted only as
+    a whole assignment to a name, and the STATEMENT texts are pinned: `src_<f>_conversions`); `S.shape[0]` is `S.length`; `S.size` is `c * S.length` for the number `c` of columns of the
     array, a PARAMETER of the definition (`c1`, `c2`; the equalities with the model hold for `c ≥ 1`: an empty 1-D array has size 0
     as well); `min(a, b)` is `min`; `S[np.isfinite(S[:, 1]), :]` is `S.filter fun p => p.2.isSome`; `np.array([[0, 0]])` is
     `[(0, some 0)]`; the k-th statement `warnings.warn(<message>)` sets the flag `warn<k>`, `false` at entry (the message texts are
-    pinned: `src_<f>_warnings`); the arrays `S`, `T` handed on to the matrix region have finite deaths only
+    pinned: `src_<f>_warnings`; a `warnings.warn` in any other region is outside the subset); the arrays `S`, `T` handed on to the matrix region have finite deaths only
     (`SrcBridge.Matching.lift` of the model's point lists).
 What is not translated is pinned as text: `srcSkeleton_<function>` (the function with every translated statement -- of this
 engine and of the matrix region -- replaced by `...`: what is left is the `if return_matching:` / `if matching:` header and the
@@ -79,6 +95,7 @@ Generated/SrcBottleneck.lean / SrcWasserstein.lean (`src_aug_entry_eq_model`).
 """
 import ast
 import os
+import re
 
 from .py2lean import (Shape, LEAN_RESERVED, lean_str, strip_doc, GEN, bindings_section, render_signature, signature_text,
                       sanitize, not_translated, not_translated_comment)
@@ -96,6 +113,11 @@ def Lst(t):
 
 def Pair(a, b):
     return ("pair", a, b)
+
+
+# types whose values no statement of the subset updates in place (Python ints / floats / bools; the oracle's dict, which is only
+# ever replaced as a whole): `y = x` is a copy of the VALUE for them
+ALIAS_OK = (TN, TZ, TB, TX, TW)
 
 
 def is_list(t):
@@ -344,6 +366,112 @@ def dotted(n):
     return None
 
 
+# names the generated text binds itself (loop definitions, the row / point lambdas): a Python name of that spelling gets a `_`
+BINDER_NAMES = ("fuel", "range", "rest", "r", "p")
+
+
+def function_idents(fn):
+    """every identifier that occurs in the Python function: names, parameters, attribute and keyword names, nested definitions,
+    imports, `global` / `nonlocal` / `except … as` names"""
+    out = set()
+    for x in ast.walk(fn):
+        if isinstance(x, ast.Name):
+            out.add(x.id)
+        elif isinstance(x, ast.arg):
+            out.add(x.arg)
+        elif isinstance(x, ast.Attribute):
+            out.add(x.attr)
+        elif isinstance(x, ast.keyword) and x.arg:
+            out.add(x.arg)
+        elif isinstance(x, (ast.FunctionDef, ast.AsyncFunctionDef, ast.ClassDef)):
+            out.add(x.name)
+        elif isinstance(x, ast.alias):
+            out.update((x.asname or x.name).split("."))
+        elif isinstance(x, (ast.Global, ast.Nonlocal)):
+            out.update(x.names)
+        elif isinstance(x, ast.ExceptHandler) and x.name:
+            out.add(x.name)
+        else:
+            for f in ("name", "rest"):                       # match patterns (`case … as name`, `*rest`, `**rest`)
+                v = getattr(x, f, None)
+                if isinstance(x, ast.pattern) and isinstance(v, str):
+                    out.add(v)
+    return out
+
+
+def all_stores(stmts):
+    """every name that ANY construct in `stmts` (re)binds or deletes, or whose value it stores into through a subscript / an
+    attribute -- for statements this engine does not translate itself (conservative: comprehension variables count)"""
+    out = set()
+    for st in stmts:
+        for x in ast.walk(st):
+            if isinstance(x, ast.Name) and isinstance(x.ctx, (ast.Store, ast.Del)):
+                out.add(x.id)
+            elif isinstance(x, (ast.Subscript, ast.Attribute)) and isinstance(x.ctx, (ast.Store, ast.Del)):
+                b = x
+                while isinstance(b, (ast.Subscript, ast.Attribute)):
+                    b = b.value
+                if isinstance(b, ast.Name):
+                    out.add(b.id)
+            elif isinstance(x, (ast.FunctionDef, ast.AsyncFunctionDef, ast.ClassDef)):
+                out.add(x.name)
+            elif isinstance(x, ast.alias):
+                out.add((x.asname or x.name).split(".")[0])
+            elif isinstance(x, (ast.Global, ast.Nonlocal)):
+                out.update(x.names)
+            elif isinstance(x, ast.ExceptHandler) and x.name:
+                out.add(x.name)
+            elif isinstance(x, ast.pattern):
+                for f in ("name", "rest"):
+                    if isinstance(getattr(x, f, None), str):
+                        out.add(getattr(x, f))
+    return out
+
+
+def all_loads(stmts):
+    out = set()
+    for st in stmts:
+        for x in ast.walk(st):
+            if isinstance(x, ast.Name) and isinstance(x.ctx, ast.Load):
+                out.add(x.id)
+    return out
+
+
+# ----------------------------------------------------------------------------- liveness of the GENERATED bindings
+
+_TOK = re.compile(r"(?<![\w.'])[A-Za-z_][\w']*")
+
+
+def _toks(text):
+    """the identifiers a Lean text mentions (field / namespace components behind a `.` are not names of binders)"""
+    return set(_TOK.findall(text))
+
+
+def live(n, what):
+    """the names the IR `n` reads.  Shape if it binds a name that nothing behind the binding reads: a store the definitional
+    unfolding (`rfl`, zeta) would absorb -- in Python the stored value may live on (a later region, the pinned `return`, the
+    next iteration), so such a source is outside the subset, not a harmless rewrite"""
+    if isinstance(n, Ret):
+        return set().union(*[_toks(v) for v in n.vals]) if n.vals else set()
+    if isinstance(n, Fail):
+        return set()
+    if isinstance(n, Tail):
+        return _toks(n.text)
+    if isinstance(n, MatchFuel):
+        return live(n.body, what) | {"fuel"}
+    if isinstance(n, Ite):
+        return _toks(n.cond) | live(n.a, what) | live(n.b, what)
+    if isinstance(n, (Let, MatchOpt, Join)):
+        u = live(n.body, what)
+        pats = _TOK.findall(n.pat)
+        dead = [x for x in pats if x not in u]
+        if dead:
+            raise Shape("%s: the value bound to `%s` is never read (a dead store: the definitional unfolding would absorb it)"
+                        % (what, "`, `".join(dead)))
+        return (u - set(pats)) | (live(n.inner, what) if isinstance(n, Join) else _toks(n.text))
+    raise Shape("internal: IR node %r" % (n,))
+
+
 # ----------------------------------------------------------------------------- the translator: expressions
 
 class Tr:
@@ -352,21 +480,30 @@ class Tr:
         self.top = top or self                  # shared: emitted loop definitions, marks, loop counters
         if top is None:
             self.defs, self.translated, self.nfor, self.nwhile, self.conversions = [], set(), [0], [0], []
+            self.idents = set()                 # every identifier of the Python function (set by `translate`)
+        self.cur, self.rhs = None, None         # the assignment being translated and its right side
         self.defname = defname
         self.env, self.vt, self.count, self.pre = {}, {}, {}, []
         self.on_continue = None
 
     # -- names
-    def fresh(self, py):
+    def fresh(self, py, synthetic=False):
+        """a Lean name for a (new version of a) Python name.  The first version of `x` is `x` itself; every OTHER name this hands
+        out -- a later SSA version `x_k`, a name changed by the alias table / `sanitize` / a `_` suffix, a name of the translator's
+        own (`synthetic`: guards `v`, warning flags, column counts) -- must not occur as an identifier anywhere in the Python
+        function: otherwise a Python local of that spelling and the translator's name would be one Lean binder (name capture)"""
         base = sanitize(self.cfg.get("alias", {}).get(py, py)) or "v"
-        if base in LEAN_RESERVED or base in ("fuel", "range", "rest"):
+        if base in LEAN_RESERVED or base in BINDER_NAMES:
             base += "_"
         k = self.count.get(base, 0)
         self.count[base] = k + 1
-        return base if k == 0 else "%s_%d" % (base, k)
+        nm = base if k == 0 else "%s_%d" % (base, k)
+        if nm in self.top.idents and (synthetic or nm != py):
+            raise Shape("the translator's name `%s` (a version of `%s`) is an identifier of the function" % (nm, py))
+        return nm
 
-    def bind(self, py, ty, lean=None):
-        nm = lean or self.fresh(py)
+    def bind(self, py, ty, lean=None, synthetic=False):
+        nm = lean or self.fresh(py, synthetic)
         self.env[py] = nm
         self.vt[nm] = ty
         return nm
@@ -388,7 +525,7 @@ class Tr:
         return node
 
     def hoist(self, text, ty, base="v"):
-        nm = self.fresh(base)
+        nm = self.fresh(base, synthetic=True)
         self.pre.append((nm, text))
         return E(nm, ty)
 
@@ -472,8 +609,9 @@ class Tr:
                     if v.ty[1] is None or v.ty[1] not in self.env:
                         raise Shape(".size of an array whose number of columns is not a parameter: %s" % ast.unparse(n))
                     return E("%s * %s.length" % (self.env[v.ty[1]], par(v, 100)), TN, 70)
-                if not is_list(v.ty):
-                    raise Shape(".size of a value that is not a 1-D array")
+                if v.ty != Lst(TX):                     # the lists of entries are the 1-D ndarrays of the subset (`np.sort(np.unique(·))`,
+                    raise Shape(".size of a value that is not a 1-D array of entries (a Python list has no `.size`): %s"   # its slices,
+                                % ast.unparse(n))           # `D[a, b]`); a list of rows / pairs / indices may be a Python list
                 return E("%s.length" % par(v, 100), TN)
             raise Shape("attribute outside the subset: %s" % ast.unparse(n))
         if isinstance(n, ast.Call):
@@ -680,12 +818,20 @@ class Tr:
             if isinstance(a0, ast.List) and len(a0.elts) == 1 and isinstance(a0.elts[0], ast.List) and len(a0.elts[0].elts) == 2 \
                     and [const_int(x) for x in a0.elts[0].elts] == [0, 0]:
                 return E("[(0, some 0)]", Dgm(None))                       # np.array([[0, 0]])
-            return self.expr(a0, expect)
+            # `np.array(l)` of a list of index pairs (a fresh (k, 2) array with the same rows): read as `l`, only as the WHOLE
+            # right side of an assignment, whose text is pinned
+            v = self.expr(a0)
+            if n is not self.rhs or v.ty != Lst(Pair(TN, TN)):
+                raise Shape("np.array(x) outside `<target> = np.array(<list of index pairs>)`: %s" % ast.unparse(n))
+            self.top.conversions.append(ast.unparse(self.cur))
+            return v
         if name == "np.array" and len(n.args) == 1 and [(k.arg, ast.unparse(k.value)) for k in n.keywords] == [("dtype", "float")]:
             v = self.expr(n.args[0])
             if not is_dgm(v.ty):
                 raise Shape("np.array(x, dtype=float) of something that is not a diagram: %s" % ast.unparse(n))
-            self.top.conversions.append(ast.unparse(n))                    # read as the identity; pinned as text
+            if n is not self.rhs or not isinstance(self.cur.targets[0], ast.Name):
+                raise Shape("np.array(x, dtype=float) outside `<name> = np.array(<diagram>, dtype=float)`: %s" % ast.unparse(n))
+            self.top.conversions.append(ast.unparse(self.cur))             # read as the identity; the statement is pinned as text
             return v
         if name == "min" and len(n.args) == 2 and plain:
             a, b = self.expr(n.args[0]), self.expr(n.args[1])
@@ -760,9 +906,10 @@ class Tr:
         if isinstance(s, ast.Assign):
             if len(s.targets) != 1:
                 raise Shape("chained assignment")
+            self.cur, self.rhs = s, s.value
             return self.assign(s, s.targets[0], s.value, kk)
         if isinstance(s, ast.Expr) and getattr(s, "_warn_flag", None):
-            return Let(self.bind(s._warn_flag, TB), "true", kk())
+            return Let(self.bind(s._warn_flag, TB, synthetic=True), "true", kk())
         if isinstance(s, ast.Expr):
             c = s.value
             if isinstance(c, ast.Call) and isinstance(c.func, ast.Attribute) and c.func.attr == "append" and isinstance(c.func.value, ast.Name) \
@@ -792,6 +939,10 @@ class Tr:
             if isinstance(v, ast.List) and not v.elts:
                 return Let(self.bind(t.id, self.empty_kind(t.id, "list")), "[]", kk())
             e = self.expr(v)
+            if isinstance(v, ast.Name) and e.ty not in ALIAS_OK:
+                # lists, the row array, the dict `graph`, arrays: VALUES here, objects in Python -- `y = x` would make an in-place
+                # update through one name (`append`, `ret[...] = ...`, `g[k] = e`) an update of the other as well
+                raise Shape("`%s` gives a second name to a mutable value (aliasing is not modelled)" % ast.unparse(s))
             pre = self.take_pre()
             return self.with_pre(pre, Let(self.bind(t.id, e.ty), e.t, kk()))
         if isinstance(t, ast.Tuple) and len(t.elts) == 2 and all(isinstance(x, ast.Name) for x in t.elts):
@@ -924,6 +1075,13 @@ class Tr:
         t.env0 = dict(t.env)
         return t
 
+    @staticmethod
+    def check_live(name, used, binders):
+        """every parameter of a generated loop definition is read in it (a carried name that nothing reads would be a dead store)"""
+        dead = [b for b, _ in binders if b not in used]
+        if dead:
+            raise Shape("%s: the parameter `%s` is never read" % (name, "`, `".join(dead)))
+
     def emit(self, name, doc, binders, result_tys, lines):
         sig = " ".join("(%s : %s)" % (b, t) for b, t in binders)
         self.top.defs.append((name, "/-- `%s` -/\ndef %s %s : Option %s :=\n%s"
@@ -962,6 +1120,7 @@ class Tr:
         body = sub.block(s.body, again, loop_items + after)
         ir = sub.with_pre(pre, Ite(test.t, MatchFuel(body), exit_ir))
         binders = [(sub.env0[n], self.lty(self.ty(n))) for n in inv] + [("fuel", "Nat")] + [(sub.env0[n], self.lty(self.ty(n))) for n in carried]
+        self.check_live(name, live(ir, name), binders)
         self.emit(name, header, binders, rtys, render(ir, "  "))
         args = [self.env[n] for n in inv] + ["(%s.length + 1)" % self.env[fuel_list]] + [self.env[n] for n in carried]
         return self.call_loop(name, args, results, rtys, kk)
@@ -998,6 +1157,7 @@ class Tr:
         body = sub.block(s.body, again, loop_items + after)
         lines = ["  match range with", "  | [] =>"] + render(exit_ir, "    ") + ["  | %s :: rest =>" % v0] + render(body, "  ")
         binders = [(sub.env0[x], self.lty(self.ty(x))) for x in inv] + [("range", "List Nat")] + [(sub.env0[x], self.lty(self.ty(x))) for x in carried]
+        self.check_live(name, live(exit_ir, name) | live(body, name) | {"range"}, binders)
         self.emit(name, header, binders, rtys, lines)
         args = [self.env[x] for x in inv] + ["(List.range %s)" % par(n, 100)] + [self.env[x] for x in carried]
         return self.with_pre(pre, self.call_loop(name, args, results, rtys, kk))
@@ -1101,21 +1261,95 @@ def _skeleton(stmts, translated, lead_hole=False):
     return ast.unparse(ast.fix_missing_locations(ast.Module(body=go(list(stmts), lead_hole), type_ignores=[])))
 
 
+def region_interfaces(fn, body, cfgs):
+    """The function is a CHAIN of regions -- this engine's (in source order: preamble, behind the matrix, the `if <flag>:` body),
+    between the first two the matrix region of the statement-level engine -- and of pinned statements (the `if <flag>:` header,
+    the `return`s).  A region hands on exactly its declared outputs (`ret`; the matrix region: the matrix): the obligations
+    compose the regions through these names, so a region must not (re)bind any OTHER name that something behind it reads --
+    a parameter of a later region, a global name a later region calls, a name the matrix region or a pinned statement loads.
+    -> {lean name of the region | "matrix": error text} for the regions that do"""
+    regions = []                                                        # (key, statements, declared outputs), in source order
+    for cfg in cfgs:
+        regions.append([cfg["lean"], pick_region(body, cfg), set(cfg["ret"]), cfg])
+    lo, hi = preamble_end(body, cfgs[0]["matrix"]), first_translated(body, cfgs)
+    matrix = ["matrix", body[lo:hi], {cfgs[0]["matrix"]}, None]
+    regions.insert(1, matrix)
+    kinds = [r[3]["region"].split("_")[0] for r in regions if r[3]]
+    if kinds != ["preamble", "behind", "if"]:
+        raise Shape("internal: the table of regions is not preamble / behind the matrix / if-body")
+    mine = set()
+    for _, stmts, _, _ in regions:
+        mine |= {id(x) for st in stmts for x in ast.walk(st) if isinstance(x, ast.stmt)}
+    # what stays as text: every statement of the function outside the regions (a compound statement around a region: its header)
+    pinned = set()
+
+    def rest(seq):
+        for st in seq:
+            if id(st) in mine:
+                continue
+            blocks = [getattr(st, f) for f in ("body", "orelse", "finalbody") if isinstance(getattr(st, f, None), list)]
+            if any(id(x) in mine for b in blocks for x in b if isinstance(x, ast.stmt)):
+                for f in ast.iter_fields(st):
+                    if f[0] not in ("body", "orelse", "finalbody"):
+                        for v in (f[1] if isinstance(f[1], list) else [f[1]]):
+                            if isinstance(v, ast.AST):
+                                pinned.update(all_loads([v]))
+                for b in blocks:
+                    rest(b)
+            else:
+                pinned.update(all_loads([st]))
+    rest(body)
+    errors = {}
+    for k, (key, stmts, outs, cfg) in enumerate(regions):
+        behind = set(pinned)
+        for key2, stmts2, _, cfg2 in regions[k + 1:]:
+            if cfg2 is None:
+                behind |= all_loads(stmts2)
+            else:                       # its parameters, and the names it reads and never binds itself (global names)
+                behind |= {py for py, _, _ in cfg2["params"]} | (all_loads(stmts2) - all_stores(stmts2))
+        stores = all_stores(stmts)
+        if cfg is not None:
+            try:
+                stores |= set(assigned(stmts))
+            except Shape:
+                pass                                                    # (the region is refused where it is translated)
+        bad = sorted((stores & behind) - outs)
+        if bad:
+            errors[key] = ("the %s assigns `%s`, which is not one of its outputs (%s) and is read behind it (by a later region / "
+                           "the matrix region / a pinned statement)"
+                           % ("matrix region" if cfg is None else "region `%s`" % key, "`, `".join(bad), ", ".join(sorted(outs))))
+    return errors
+
+
 def translate(fn, cfgs):
     """-> ({lean name: [def texts] | error text}, ids of the translated statements)"""
     body = strip_doc(fn.body)
     translated, out, pins = set(), {}, {}
+    idents = function_idents(fn)
+    try:
+        iface = region_interfaces(fn, body, cfgs)
+    except Shape as e:
+        iface = {"matrix": str(e)}
+    except Exception as e:                           # anything else the source makes the translator do: outside the subset
+        iface = {"matrix": "%s: %s" % (type(e).__name__, e)}
     for cfg in cfgs:
         try:
+            if "matrix" in iface:                     # the chain of regions is broken in front of / between this engine's regions
+                raise Shape(iface["matrix"])
+            if cfg["lean"] in iface:
+                raise Shape(iface[cfg["lean"]])
             stmts = pick_region(body, cfg)
             warns = mark_warnings(stmts)
+            if warns and cfg.get("warnings") is None:
+                raise Shape("`warnings.warn` in a region whose warnings are not part of its result: %s" % warns[0][1])
             tr = Tr(cfg)
+            tr.idents = idents
             tr.scope = [x for x in ast.walk(fn) if isinstance(x, ast.stmt)]
             binders = []
             for py, ty, lean in cfg["params"]:
-                binders.append((tr.bind(py, ty), lean_ty(ty, cfg)))
+                binders.append((tr.bind(py, ty, synthetic=py in SYNTHETIC_PARAMS), lean_ty(ty, cfg)))
             for flag, _ in warns:                         # the flags of the `warnings.warn` call sites: not set at entry
-                tr.bind(flag, TB)
+                tr.bind(flag, TB, synthetic=True)
             rets = cfg["ret"]
             entry = [Let(tr.env[flag], "false", None) for flag, _ in warns]
 
@@ -1133,6 +1367,9 @@ def translate(fn, cfgs):
             for e in reversed(entry):
                 e.body = node
                 node = e
+            live(node, cfg["lean"])                       # no dead store among the generated bindings
+            if tr.conversions and cfg.get("conversions") is None:
+                raise Shape("a conversion read as the identity in a region whose conversions are not pinned: %s" % tr.conversions[0])
             pins[cfg["lean"]] = {"warnings": [m for _, m in warns], "conversions": list(tr.conversions)}
             defs = [t for _, t in tr.defs]
             defs.append("/-- %s -/\ndef %s %s : Option %s :=\n%s" % (cfg["doc"], cfg["lean"], " ".join("(%s : %s)" % b for b in binders),
@@ -1189,6 +1426,7 @@ ORA = "(oracle : Graph → Matching)"
 MND = "(M N : Nat) (D : Nat → Nat → Ext α)"
 
 PRE_PARAMS = [("c1", TN, "c1"), ("c2", TN, "c2"), ("dgm1", Dgm("c1"), "dgm1"), ("dgm2", Dgm("c2"), "dgm2")]
+SYNTHETIC_PARAMS = ("c1", "c2")          # parameters that stand for no Python name: not to occur in the function at all
 PRE_RET = (["S", "M", "T", "N", "warn1", "warn2"], [Dgm(None), TN, Dgm(None), TN, TB, TB])
 
 TARGETS = [
@@ -1198,7 +1436,7 @@ TARGETS = [
          doc="the preamble of `bottleneck` on two arrays with `c1`, `c2` columns whose rows are `(birth, death)` with a death that may be "
              "non-finite (`none`): the flag, the filtered / substituted diagrams `S`, `T`, their sizes `M`, `N`, and whether the "
              "first / second `warnings.warn` was reached",
-         conversions=["np.array(dgm1, dtype=float)", "np.array(dgm2, dtype=float)"],
+         conversions=["S = np.array(dgm1, dtype=float)", "T = np.array(dgm2, dtype=float)"],
          warnings=["'dgm1 has points with non-finite death times;' + 'ignoring those points'",
                    "'dgm2 has points with non-finite death times;' + 'ignoring those points'"],
          obligations=[
@@ -1316,7 +1554,7 @@ TARGETS = [
          doc="the preamble of `wasserstein` on two arrays with `c1`, `c2` columns whose rows are `(birth, death)` with a death that may "
              "be non-finite (`none`): the filtered / substituted diagrams `S`, `T`, their sizes `M`, `N`, and whether the first / "
              "second `warnings.warn` was reached",
-         conversions=["np.array(dgm1, dtype=float)", "np.array(dgm2, dtype=float)"],
+         conversions=["S = np.array(dgm1, dtype=float)", "T = np.array(dgm2, dtype=float)"],
          warnings=["'dgm1 has points with non-finite death times;' + 'ignoring those points'",
                    "'dgm2 has points with non-finite death times;' + 'ignoring those points'"],
          obligations=[
@@ -1352,7 +1590,7 @@ TARGETS = [
          ]),
     dict(WS, lean="ws_rows", region="if_body", where="the body of the top-level `if matching:` in front of its `return`",
          params=[("M", TN, "M"), ("N", TN, "N"), ("D", MAT, "D"), ("matchi", Lst(TN), "matchi"), ("matchj", Lst(TN), "matchj")],
-         ret=["ret"], ret_types=[Lst(ROW)],
+         ret=["ret"], ret_types=[Lst(ROW)], conversions=["ret[:, 0:2] = np.array(matchidx)"],
          doc="the body of `if matching:` in front of its `return`: the array `ret`, row by row",
          obligations=[
              ("src_ws_rows_eq_ref", "(M N : Nat) (D : Mat α) (matchi matchj : List Nat)",
@@ -1460,7 +1698,8 @@ def trusted_note(key):
             "augmented matrix into Generated/%s, proved equal on every run to the reviewed Lean text `Ref.*` of "
             "Lemmas/SrcBridgeMatching.lean and through it to the hand-written model; its stated conventions -- SSA, one recursive "
             "definition per loop, the `while` on the fuel len(ds)+1, `none` for an exception / exhausted fuel, the external solver as a "
-            "parameter, the matrix as its entry function / the model's `Mat`, the oracle's two-way dict as its list of pairs, the dict "
+            "parameter, the regions of the function as a chain through their declared outputs, "
+            "the matrix as its entry function / the model's `Mat`, the oracle's two-way dict as its list of pairs, the dict "
             "`graph` as the list of its values, rows `[i, j, d]` as triples, the column-wise NumPy statements read row by row, names "
             "resolved by spelling with their bindings pinned as text -- its tables (regions by anchor, loop names, the obligation "
             "statements and proof scripts, the reviewed skeleton / signature / bindings texts) and Lemmas/SrcLibMatching.lean "
@@ -1494,8 +1733,13 @@ def manifest_note(key):
             "and triggers the failing-input search, except a renaming of locals or a rewrite that the `let`s / definitional unfolding "
             "absorb.  Pinned as text: the `if <flag>:` header and the `return` statements (`src_%s_skeleton`; "
             "`src_aug_entry_skeleton` / `…_skeleton_after` of the matrix file shrink to `...` / the same text), the signature, the module-level bindings "
-            "(`src_%s_bindings`), the `np.array(x, dtype=float)` calls read as the identity and the warning messages "
-            "(`src_<f>_conversions`, `src_<f>_warnings`).  Not tied by the translator: the contract of the "
+            "(`src_%s_bindings`), the `S = np.array(x, dtype=float)` / `ret[:, 0:2] = np.array(matchidx)` statements whose call is read as "
+            "the identity and the warning messages (`src_<f>_conversions`, `src_<f>_warnings`).  Refused (`srcShape_<f>_recognised` "
+            "fails) rather than absorbed: a statement whose stored value nothing reads (liveness of the generated bindings), a region "
+            "-- the matrix region included -- that binds a name which is not one of its declared outputs and is read behind it "
+            "(`M`, `N`, `matching`, `return_matching`, `bdist`, `matchdist`, …), a second name for a list / array / dict (`y = x`), a "
+            "Python identifier spelled like a name the translator makes up (`ret_4`, `ds_1`, `warn1`, `v`), a `warnings.warn` outside "
+            "the preamble.  Not tied by the translator: the contract of the "
             "external solver (a hypothesis of the model's theorems, certified per call by the correspondence streams), float rounding, "
             "the callers (trusted: the translator's stated conventions, its tables, Lemmas/SrcLibMatching.lean)."
             % (FILES[key][0], what, FILES[key][1], FILES[key][0].split("/")[-1][:-3], key))
@@ -1564,7 +1808,10 @@ def render_file(key, root):
             err = "%s: %s" % (type(e).__name__, e)
     for cfg in cfgs:
         f = cfg["lean"]
-        o.append("/-! ### `%s`  (from `%s` of %s, %s) -/" % (f, func, py, cfg["where"]))
+        o.append("/-! ### `%s`  (from `%s` of %s, %s)\n"
+                 "interface of the region: takes `%s`; hands on `%s` -- no other name that anything behind the region reads may be "
+                 "bound in it -/" % (f, func, py, cfg["where"], "`, `".join(x for x, _, _ in cfg["params"] if x not in SYNTHETIC_PARAMS),
+                                    "`, `".join(cfg["ret"])))
         o.append("section")
         o.append("variable {α : Type} " + cfg["variables"] + "\n")
         e = err if err is not None else (res[f] if isinstance(res.get(f), str) else None)
